@@ -446,7 +446,7 @@ func qAtomOf(n *qsx) (string, error) {
 type qBuilder struct {
 	ctr *int64 // the probe: records pulled from the static streams of this build
 	ev  *int64 // the probe: provider events (Open / Emit incl. the EOF call / Close) of the static streams [C05 Q cases]
-	ext bool   // accept the extra filter kinds of the C05 Q grammar (align / alignfill / delta / rate)
+	ext bool   // (historic) the stream filters align / alignfill / delta / rate are part of the grammar for every family now
 }
 
 func newQBuilder() *qBuilder { return &qBuilder{ctr: new(int64), ev: new(int64)} }
@@ -996,9 +996,9 @@ func (b *qBuilder) rf(n *qsx) (report.Filter, error) {
 			return nil, err
 		}
 		return report.NewConditionFilter(v), nil
-	case "align", "alignfill":
-		if !b.ext {
-			return nil, errQBad
+	case "align", "alignfill", "aligncal", "aligncalfill":
+		if !b.ext && strings.HasPrefix(a[0].atom, "aligncal") {
+			return nil, errQBad // calendar periods: spec-only X cases / C05 Q cases
 		}
 		ap, fm, err := qAlignArgs(a)
 		if err != nil {
@@ -1012,30 +1012,74 @@ func (b *qBuilder) rf(n *qsx) (report.Filter, error) {
 	return nil, errQBad
 }
 
-// qAlignArgs parses ( align periodNanos ) / ( alignfill periodNanos linear|forward ) of the C05 Q grammar.
+// qAlignArgs parses ( align periodNanos ) / ( alignfill periodNanos linear|forward|bogus ) and, for the spec-only
+// cases, ( aligncal day|week|month|quarter|halfyear|year 'zone ) / ( aligncalfill unit 'zone mode ).
 func qAlignArgs(a []*qsx) (timeseries.AlignmentPeriod, *timeseries.FillMode, error) {
 	if len(a) < 2 {
 		return nil, nil, errQBad
 	}
-	ps, err := qAtomOf(a[1])
-	if err != nil {
-		return nil, nil, err
-	}
-	p, err := qInt64Atom(ps)
-	if err != nil || p <= 0 {
+	var ap timeseries.AlignmentPeriod
+	rest := a[2:]
+	filled := false
+	switch a[0].atom {
+	case "align", "alignfill":
+		ps, err := qAtomOf(a[1])
+		if err != nil {
+			return nil, nil, err
+		}
+		p, err := qInt64Atom(ps)
+		if err != nil || p <= 0 {
+			return nil, nil, errQBad
+		}
+		ap = timeseries.NewFixedAlignmentPeriod(time.Duration(p), time.UTC)
+		filled = a[0].atom == "alignfill"
+	case "aligncal", "aligncalfill":
+		if len(a) < 3 {
+			return nil, nil, errQBad
+		}
+		unit, err := qAtomOf(a[1])
+		if err != nil {
+			return nil, nil, err
+		}
+		zone, err := qStr(a[2])
+		if err != nil {
+			return nil, nil, err
+		}
+		loc, err := time.LoadLocation(zone)
+		if err != nil {
+			return nil, nil, errQBad
+		}
+		switch unit {
+		case "day":
+			ap = timeseries.NewDayAlignmentPeriod(loc)
+		case "week":
+			ap = timeseries.NewWeekAlignmentPeriod(loc)
+		case "month":
+			ap = timeseries.NewMonthAlignmentPeriod(loc)
+		case "quarter":
+			ap = timeseries.NewQuarterAlignmentPeriod(loc)
+		case "halfyear":
+			ap = timeseries.NewHalfYearAlignmentPeriod(loc)
+		case "year":
+			ap = timeseries.NewYearAlignmentPeriod(loc)
+		default:
+			return nil, nil, errQBad
+		}
+		rest = a[3:]
+		filled = a[0].atom == "aligncalfill"
+	default:
 		return nil, nil, errQBad
 	}
-	ap := timeseries.NewFixedAlignmentPeriod(time.Duration(p), time.UTC)
-	if a[0].atom == "align" {
-		if len(a) != 2 {
+	if !filled {
+		if len(rest) != 0 {
 			return nil, nil, errQBad
 		}
 		return ap, nil, nil
 	}
-	if len(a) != 3 {
+	if len(rest) != 1 {
 		return nil, nil, errQBad
 	}
-	ms, err := qAtomOf(a[2])
+	ms, err := qAtomOf(rest[0])
 	if err != nil {
 		return nil, nil, err
 	}
@@ -1045,10 +1089,31 @@ func qAlignArgs(a []*qsx) (timeseries.AlignmentPeriod, *timeseries.FillMode, err
 		fm = timeseries.FillModeLinear
 	case "forward":
 		fm = timeseries.FillModeForwardFill
+	case "bogus":
+		fm = timeseries.FillMode("bogus")
 	default:
 		return nil, nil, errQBad
 	}
 	return ap, &fm, nil
+}
+
+// qMaxCounter parses maxCounterValue: a decimal int64 (converted with float64(int64)) or d:<16 hex digits of the bits>.
+func qMaxCounter(s string) (float64, error) {
+	if strings.HasPrefix(s, "d:") {
+		if len(s) != 18 {
+			return 0, errQBad
+		}
+		bits, err := strconv.ParseUint(s[2:], 16, 64)
+		if err != nil {
+			return 0, errQBad
+		}
+		return math.Float64frombits(bits), nil
+	}
+	mx, err := qInt64Atom(s)
+	if err != nil {
+		return 0, err
+	}
+	return float64(mx), nil
 }
 
 // df builds a datasource filter.
@@ -1095,9 +1160,12 @@ func (b *qBuilder) df(n *qsx) (datasource.Filter, error) {
 		}
 		return datasource.NewOverrideFieldMetadataFilter(nu, nun, cm), nil
 	}
-	if b.ext {
+	{
 		switch n.head() {
-		case "align", "alignfill":
+		case "align", "alignfill", "aligncal", "aligncalfill":
+			if !b.ext && strings.HasPrefix(a[0].atom, "aligncal") {
+				return nil, errQBad
+			}
 			ap, fm, err := qAlignArgs(a)
 			if err != nil {
 				return nil, err
@@ -1118,11 +1186,11 @@ func (b *qBuilder) df(n *qsx) (datasource.Filter, error) {
 			if err != nil {
 				return nil, err
 			}
-			mx, err := qInt64Atom(ms)
+			mx, err := qMaxCounter(ms)
 			if err != nil {
 				return nil, err
 			}
-			return datasource.NewDeltaFilter(nn, float64(mx)), nil
+			return datasource.NewDeltaFilter(nn, mx), nil
 		case "rate": // ( rate 'unit perSeconds nonNegative maxCounter )
 			if len(a) != 5 {
 				return nil, errQBad
@@ -1147,11 +1215,11 @@ func (b *qBuilder) df(n *qsx) (datasource.Filter, error) {
 			if err != nil {
 				return nil, err
 			}
-			mx, err := qInt64Atom(ms)
+			mx, err := qMaxCounter(ms)
 			if err != nil {
 				return nil, err
 			}
-			return datasource.NewRateFilter(u, int(ps), nn, float64(mx)), nil
+			return datasource.NewRateFilter(u, int(ps), nn, mx), nil
 		}
 	}
 	return nil, errQBad
